@@ -325,6 +325,7 @@ def run_job(job):
     formats = list(wregistry)
     out['formats'] = formats
     nrender = 0
+    firsts = []         # (format, notation, writer opts, first rendering)
     for fmt in formats:
         for notn in NOTATIONS:
             if fmt == 'text':
@@ -345,6 +346,7 @@ def run_job(job):
                     renders.append([fmt, notn, wopts, False])
                     continue
                 renders.append([fmt, notn, wopts, True])
+                firsts.append((fmt, notn, wopts, a))
                 if not isinstance(a, str):
                     add(f'C19:render-not-str:{fmt}:{notn}', f'the {fmt} writer returned {type(a).__name__}', format=fmt, notation=notn, wopts=wopts)
                     continue
@@ -369,6 +371,27 @@ def run_job(job):
                                lambda clause, what, _n=notn, _o=wopts: add(f'C19:text-unfaithful:{clause}', f'text/{_n} {_o or ""}: {what}',
                                                                           format='text', notation=_n, wopts=_o, text=a[:1500]))
                     texts.append([notn, wopts, a])
+    # long-lived writers: ONE writer object per (format, notation, options), kept for the whole worker process and used for
+    # every tableau, interleaved with the writers of the other notations — its output must equal a fresh writer's
+    for fmt, notn, wopts, a in firsts:
+        key = (fmt, notn, json.dumps(wopts, sort_keys=True))
+        try:
+            wp = _LONG_LIVED.get(key)
+            if wp is None:
+                wp = _LONG_LIVED[key] = TabWriter(fmt, notn, **wopts)
+            d = wp(tab)
+        except Exception as e:  # noqa
+            tb = traceback.format_exc()
+            add(f'C19:render-raises:{fmt}:{notn}:{type(e).__name__}',
+                f'a long-lived TabWriter({fmt!r}, {notn!r}, **{wopts}) raised {type(e).__name__}: {str(e)[:160]}',
+                format=fmt, notation=notn, wopts=wopts, traceback=tb[-2500:], repo=str(common.REPO) in tb)
+            continue
+        if isinstance(a, str) and d != a:
+            i = next((k for k, (x, y) in enumerate(zip(a, d)) if x != y), min(len(a), len(d)))
+            add(f'C19:render-nondeterministic:{fmt}:{notn}',
+                f'a writer object that has rendered other tableaux / been interleaved with writers of the other notation renders this '
+                f'tableau differently from a fresh writer, at offset {i}: {a[max(0, i - 30):i + 30]!r} vs {d[max(0, i - 30):i + 30]!r}',
+                format=fmt, notation=notn, wopts=wopts, history='long-lived writer per (format, notation, options) across the worker process')
     out['renders'] = renders
     out['nrender'] = nrender
     out['texts'] = texts
@@ -382,6 +405,9 @@ def run_job(job):
         except Unreadable:
             out['read'] = None
     return out
+
+
+_LONG_LIVED: dict = {}
 
 
 def freeze_clock():
